@@ -54,7 +54,9 @@ def rule_control(facts):
     wrong = None
     for v in range(256):
         got = pat.reached_under(d, ptd, d.blocks[reads[0]].term.target, leaf_of(v), stops, avoid=heads)
-        kinds = {"lzma" if x in callsp else "uncompressed" if x in callsu else "end" for x in got}
+        # an exit that can only return an error is a refusal of the chunk (C02.R6 judges those), not the end of the stream
+        kinds = {"lzma" if x in callsp else "uncompressed" if x in callsu else "end" for x in got
+                 if x in callsp or x in callsu or flow.reaches_ok(d, x)}
         want = {"end"} if v == 0 else {"uncompressed"} if v in (1, 2) else {"lzma"}
         if kinds != want:
             wrong = (v, sorted(kinds), sorted(want))
